@@ -24,7 +24,8 @@ RULE = ('cases = N in 2..8 concurrent associations on one server AE (and, in hal
         'maximum length, SOP-class subset) x a seeded subset that aborts, raises or is reset in '
         'mid-transfer x schedule policy {uniform, round-robin-biased, starvation-biased} x '
         'fine-grain pre-emption on/off; oracle: every client\'s outcome equals what it would be '
-        'alone; non-trivial = every case; distinct = distinct scheduler signatures')
+        'alone; non-trivial = every case; distinct = distinct scheduler signatures'
+        '; hot family (shared entity reconfigured in gated rounds, pre-emption in the configuration code); storage-commitment operations; 25 % with one more connection that never sends anything')
 ASSUMPTIONS = ['the reference outcome of a client alone is computed by the harness from what the '
                'client sent (data echoes, statuses, match lists), not by a second run',
                'pre-emption granularity: source lines of the listed functions; not bytecodes']
